@@ -255,6 +255,10 @@ fn search_oracle(run: &SearchRun, target: f64, init: f64) -> Option<String> {
             return Some(format!("search continued past step {} although its acceptance {at} already crossed target {target}", t.1));
         }
     }
+    // the adaptation (dual averaging or Adam) is restarted AT the step the search found
+    if !((run.adapt_step / run.final_step - 1.0).abs() <= 1e-12) {
+        return Some(format!("the search ended at step {} but the adaptation state was restarted at {}", run.final_step, run.adapt_step));
+    }
     None
 }
 
